@@ -35,13 +35,10 @@ def tpd(p):
 
 def safe_tp_range(p, r):
     """counts whose time_point printing does not run into sanitizer-reported UB in the implementation
-    (first partial day of a sub-day precision; year >= 10^16 / days + 719468 overflow for days)"""
+    (only days + 719468 overflow for the last 719468 values of time_point<days,int64> is left)"""
     lo, hi = K.RMIN[r], K.RMAX[r]
-    if p != "d":
-        lo = -((-lo) // tpd(p)) * tpd(p)
-    else:
-        lim = 36 * 10 ** 17
-        lo, hi = max(lo, -lim), min(hi, lim)
+    if p == "d":
+        hi = min(hi, 2 ** 63 - 1 - 719468)
     return lo, hi
 
 
@@ -64,6 +61,8 @@ def boundary_values(p, r, k):
         fd = -((-lo) // tpd(p)) * tpd(p)
         for dd in range(-3, 4):
             vals.add(fd + dd)
+    for dd in range(-3, 4):
+        vals.add(2 ** 63 - 1 - 719468 + dd)
     for yr in (10 ** 15, 10 ** 16, -10 ** 15, -10 ** 16, 10 ** 14, -10 ** 14):
         c = K.days_before_year(yr) * 86400 * 10 ** 9 // t
         for dd in (-1, 0, 1):
@@ -146,8 +145,6 @@ def sweeps(rng, tier):
     n = 1500 if q else 20000
     for p in K.PRECS:
         for r in ("i64", "i32", "u64"):
-            if r == "i32" and p in ("ns", "us"):
-                continue            # first-partial-day region is irregular there: explicit cases only
             for kind, what in (("sweep.rt", "tp"), ("sweep.rt", "dur"), ("sweep.ts", "tp"), ("sweep.ts", "dur")):
                 if kind == "sweep.rt" and what == "tp" and not K.can_print_tp(p, r):
                     continue
